@@ -225,6 +225,63 @@ def check_transmom_assembly(ctx, spec, prop, variant, space, n, nc, na):
           "the code's operator-level intermediate states (Lean Wick model + proved checker)", dict(rep, code=str(code)[:600]))
 
 
+def check_expec_assembly(ctx, spec, prop, variant, space, n, npart):
+    """expec_block_contribution(n, (I,I)) of the lowest class for ALL Hamiltonians, operator matrices and amplitude vectors:
+         D^(n) = X_I Y_J sum_{k+a+b+c=n} N(k) ( [b = 0] <I~(a)| d |J~(c)>  -  <d>_gs^(b) <I~(a)|J~(c)> )"""
+    from adcgen import Expr
+    from adcgen.indices import generic_indices_from_space
+    from sympy import S
+    from props.c02 import spec_operator, spec_expectation
+    isr = prop.l_isr
+    rep = {"kind": "assembly", "request": f"{variant} expec_block_contribution({n}, ({space},{space}), n_particles={npart})"}
+    if n_fact(space) != 1:
+        ctx.skip("assembly: sqrt prefactor")
+        return
+    code = prop.expec_block_contribution(n, f"{space},{space}", n_particles=npart)
+    li = "".join(s_.name for s_ in generic_indices_from_space(space))
+    ri = "".join(s_.name for s_ in generic_indices_from_space(space))
+    la = isr.amplitude_vector(indices=li, lr="left")
+    ra = isr.amplitude_vector(indices=ri, lr="right")
+    pieces = []
+    for k in range(n + 1):
+        for a in range(n - k + 1):
+            for c in range(n - k - a + 1):
+                b = n - k - a - c
+                bra = isr.intermediate_state(order=a, space=space, braket="bra", indices=li)
+                ket = isr.intermediate_state(order=c, space=space, braket="ket", indices=ri)
+                if bra is S.Zero or ket is S.Zero:
+                    continue
+                if b == 0:
+                    pieces.append((1, la * bra * spec_operator(npart, npart) * ket * ra, None, k))
+                pieces.append((-1, la * bra * ket * ra, b, k))
+    ic = X.IdxCtx(registered_zero=True)
+    sins = [(sg, sympy.expand(p), eb, k) for sg, p, eb, k in pieces]
+    for _, s_, _, _ in sins:
+        X._walk_indices(sympy.sympify(s_), ic)
+    X._walk_indices(sympy.sympify(code), ic)
+    ic.freeze()
+    expect = []
+    for sg, s_, eb, k in sins:
+        if s_ is S.Zero or (k >= 1 and not spec.norm(k)):
+            continue
+        x = R.freshen(spec.sc, R.vev(ctx, s_, ic)[0])
+        if eb is not None:
+            e0 = spec_expectation(spec, eb, npart)
+            if not e0:
+                continue
+            x = R.mul(spec.sc, x, e0)
+        if k >= 1:
+            x = R.mul(spec.sc, x, spec.norm(k))
+        expect += R.scale(x, Fraction(sg))
+    (x_code,), _ = X.export_many([(Expr(code), "auto")], ic)
+    ctx.case(("assembly-expec", variant, space, n, npart), nontrivial=True)
+    ctx.count("assembly_checks")
+    r = ctx.equiv(monic(distribute(x_code)), monic(distribute(expect)), rep["request"])
+    judge(ctx, r, f"{variant} expec_block_contribution({n}, ({space},{space}), n_particles={npart}) is not X_I Y_J sum N(k) (<I~(a)|d|J~(c)> - "
+          "<d>(b) <I~(a)|J~(c)>) over the code's operator-level intermediate states (Lean Wick model + proved checker)",
+          dict(rep, code=str(code)[:600]))
+
+
 def check_mixed(ctx):
     """mixed left/right variants (Properties(l_isr, r_isr) with different ADC variants on one ground state), decided by the
     proved checker for all Hamiltonians / operator matrices / amplitude vectors:
@@ -292,6 +349,11 @@ def run(ctx):
             for n_ in range(3):
                 try:
                     check_transmom_assembly(ctx, spec, prop, variant, MIN[variant], n_, nc_, na_)
+                except X.Unsupported as ex:
+                    ctx.skip(f"unsupported {str(ex)[:40]}")
+            for n_ in range(3):
+                try:
+                    check_expec_assembly(ctx, spec, prop, variant, MIN[variant], n_, 1)
                 except X.Unsupported as ex:
                     ctx.skip(f"unsupported {str(ex)[:40]}")
         if "N" in part:
